@@ -713,7 +713,7 @@ SPECS["C16"] = CheckSpec(
     "C16", c16_jobs,
     rule="every program = writer thread running every pair of operations from {pfx add, pfx remove of the root (pull-up), "
          "remove-by-source (two critical sections), remove of the last IPv6 record (empties a tree), add into the empty "
-         "tree, key add, key remove} x 1..2 reader threads x 1..2 operations from "
+         "tree, key add, key remove, key remove-by-source} x 1..2 reader threads x 1..2 operations from "
          "{validate IPv4, validate with reasons, validate IPv6, for-each IPv4, for-each IPv6, get_all, search_by_ski} on a pre-populated "
          "nested table; for every program ALL interleavings at lock operations and operation boundaries within the "
          "preemption bound; each read records the writer's completed-critical-section counter at call and return and "
